@@ -466,6 +466,43 @@ BdatCut(n, lastc, p, some) ==
                begin \o (IF dead THEN earlyEnd ELSE <<CB(dn \o ".end:abort", st.sess)>>)
                  \o <<CB("Reset", st.sess), CB("Logout", st.sess)>>)
 
+\* The peer falls silent inside a message for longer than ReadTimeout (the
+\* deadline set for the command line also covers the body).  The reader fails,
+\* the final reply is negative - and since the rest of the message can no
+\* longer be told from commands the connection ends there: whatever arrives
+\* afterwards is never executed (C02, C05).
+DataStall ==
+  /\ InCmdMode /\ "stall" \in Alphabet
+  /\ st.bdat = "none" /\ ~st.binarymime /\ st.from /\ st.nrcpt > 0
+  /\ st' = ClosedSt(st)
+  /\ Emit(Cmd("DATASTALL", ""),
+          <<R(354, <<>>)>> \o Finals(R(554, <<5, 0, 0>>)),
+          <<CB(DataName \o ".begin", st.sess), CB(DataName \o ".end:err", st.sess),
+            CB("Reset", st.sess), CB("Logout", st.sess)>>)
+
+\* the same inside the payload of an accepted BDAT command (backend reading
+\* everything): the chunk cannot be completed, the transfer is aborted
+BdatStall(lastc) ==
+  LET first == st.bdat = "none"
+      begin == IF first THEN <<CB(DataName \o ".begin", st.sess)>> ELSE <<>> IN
+  /\ InCmdMode /\ "stall" \in Alphabet
+  /\ st.from /\ st.nrcpt > 0
+  /\ st.bdat = "none" \/ (st.bdat = "open" /\ st.bplan = "acc")
+  /\ ~(cfg.maxBytes > 0 /\ st.bytes + 6 > cfg.maxBytes)
+  /\ st' = ClosedSt(st)
+  /\ Emit(CmdB("BDATSTALL", "", 6, lastc, IF first THEN "acc" ELSE ""),
+          IF lastc THEN Finals(R(554, <<5, 0, 0>>)) ELSE <<R(554, <<5, 0, 0>>)>>,
+          begin \o <<CB(DataName \o ".end:abort", st.sess), CB("Reset", st.sess), CB("Logout", st.sess)>>)
+
+\* and inside the chunk of a REFUSED BDAT command (no envelope): the refusal has
+\* been written, the chunk cannot be skipped to its end
+BdatStallRefused ==
+  /\ InCmdMode /\ "stall" \in Alphabet
+  /\ st.helo /\ (~st.from \/ st.nrcpt = 0) /\ st.bdat = "none"
+  /\ st' = ClosedSt(st)
+  /\ Emit(CmdB("BDATSTALL", "refused", 6, FALSE, ""), <<R(502, <<5, 5, 1>>)>>,
+          IF st.sess # 0 THEN <<CB("Reset", st.sess), CB("Logout", st.sess)>> ELSE <<>>)
+
 \* whatever was pipelined behind the step that closed the connection is
 \* never executed (properties C08, C19)
 AfterClose ==
@@ -559,6 +596,7 @@ Next ==
   \/ \E v \in {"unknown", "empty", "short", "nospace"} : BadLine(v)
   \/ Quit \/ PeerClose \/ PeerAbort \/ LongLine \/ IdleTimeout \/ AuthIdle \/ PanicMail \/ DataPanic \/ AfterClose
   \/ \E over \in BOOLEAN : DataCut(over)
+  \/ DataStall \/ (\E l \in BOOLEAN : BdatStall(l)) \/ BdatStallRefused
   \/ \E n \in ChunkSizes, l \in BOOLEAN, p \in {"", "acc", "rej", "early", "panic"}, some \in BOOLEAN : BdatCut(n, l, p, some)
   \/ \E ir \in {"none", "empty", "bytes"}, nchal \in 0..2, fin \in {"ok", "fail"} : AuthStart(ir, nchal, fin)
   \/ AuthNoArg
@@ -654,7 +692,8 @@ ReplyCountOK(l, preSt) ==
     [] l.cmd.c = "BDAT" /\ l.cmd.l /\ l.cmd.a = "" /\ l.replies[1].code \in {250, 554, 421} ->
          n = (IF cfg.lmtp THEN preSt.nrcpt ELSE 1)
     [] l.cmd.c = "BAD" /\ preSt.errCount = MaxErr -> n = 2 /\ l.replies[2].code = 500
-    [] l.cmd.c = "DATACUT" -> n = 1 + (IF cfg.lmtp THEN preSt.nrcpt ELSE 1)
+    [] l.cmd.c \in {"DATACUT", "DATASTALL"} -> n = 1 + (IF cfg.lmtp THEN preSt.nrcpt ELSE 1)
+    [] l.cmd.c = "BDATSTALL" -> n = (IF cfg.lmtp /\ l.cmd.l THEN preSt.nrcpt ELSE 1)
     [] l.cmd.c = "BDATCUT" -> n = 0 \/ n = (IF cfg.lmtp /\ l.cmd.l THEN preSt.nrcpt ELSE 1)
     [] OTHER -> n = 1
 
@@ -678,7 +717,7 @@ C07_PositiveOnlyAfterEOF ==
 
 \* a transfer cut short by a disconnect is never complete
 C07_CutNeverComplete ==
-  [][ last'.cmd.c \in {"DATACUT", "BDATCUT"} =>
+  [][ last'.cmd.c \in {"DATACUT", "BDATCUT", "DATASTALL", "BDATSTALL"} =>
         /\ \A i \in DOMAIN last'.replies : last'.replies[i].code \div 100 # 2
         /\ \A i \in DOMAIN last'.cbs : last'.cbs[i].n \notin {"Data.end:eof", "LMTPData.end:eof"}
     ]_vars
